@@ -6,7 +6,8 @@ Theorems over every reachable state of the worker-pool relation of `Model/Worker
 (`Reachable r w m s`: any worker count `w`, queue capacity `m`, any number of jobs and tasks,
 any failing positions, any interleaving of NewJob/Go/Done/Wait/Stop with the scheduler and
 the workers). Except for `c26_counterexample_unrepaired` and where `r` is left general, they
-are about the REPAIRED worker loop (`/verif/fixes/C26-worker-exits-on-error.patch`).
+are about the REPAIRED worker loop (`/verif/fixes/C26-worker-exits-on-error.patch`, committed
+in /repo as 8459107; the original loop is kept in the model as `repaired = false`).
 History fields used: `execs t` (times the body of `t` was started), `finished t`,
 `delivered j` (what the scheduler sent on `j.result`), `got j` (what `Wait` returned).
 -/
